@@ -4,7 +4,7 @@ Decided by E1: the parser's source is interpreted over a lazily read stream of s
 with the minimal DFA of RFC 3986 Appendix A (compiled from an ABNF transcription in /verif).  Every reachable
 final configuration is an obligation."""
 from ..frontend import AnalysisBroken, fmt_loc
-from ..e1results import get_many, ENTRIES, witness_of
+from ..e1results import get_many, ENTRIES, WRAPPERS, witness_of, wrapper_check
 from ..e1monitor import CAP
 
 LEVEL = 'proof'
@@ -12,10 +12,24 @@ LEVEL = 'proof'
 QUICK = [('A', 'single-mm'), ('W', 'single-mm')]
 
 
+FULL = [e for e in ENTRIES if e != 'ip4']
+
+
 def jobs_for(tier):
+    """quick: the single-URI engine entry for both character types and the state-based entry; the remaining entry
+    points are thin wrappers decided by wrapper_check.  thorough: every entry point explored in full"""
     if tier == 'thorough':
-        return [(s, e) for e in ENTRIES for s in ('A', 'W')]
-    return list(QUICK) + [(s, e) for e in ENTRIES if e != 'single-mm' for s in ('A',)]
+        return [(s, e) for e in FULL for s in ('A', 'W')]
+    return list(QUICK) + [('A', 'state-ex')]
+
+
+def wrapper_jobs(tier):
+    done = set(jobs_for(tier))
+    out = []
+    for e in WRAPPERS:
+        for s in ('A', 'W'):
+            out.append((s, e))
+    return out
 
 
 def verdict_of_final(r, f, codes):
@@ -93,6 +107,15 @@ def run(ctx, chk):
              'points store the same code', floor=1)
     chk.rule('depends-only-on-range', 'no character at or beyond afterLast is read on any path (necessary for the outcome to be a '
              'function of the given sequence alone); one obligation per exploration, violated by every over-read found', floor=1)
+    chk.rule('entry-wrappers', 'the thin entry points forward the range (or text, text + strlen(text)) and every other argument '
+             'unchanged to the explored engine and return its result unchanged', floor=8)
+    wr = []
+    for (s, e) in wrapper_jobs(chk.tier):
+        w = wrapper_check(ctx, s, e)
+        wr.append(w)
+        chk.add('entry-wrappers', 'wrapper:%s:%s' % (w['function'], e), w['ok'], w['loc'],
+                ('forwards to %s unchanged' % w['callee']) if w['ok'] else '; '.join(w['problems']), func=w['function'])
+    chk.analysed['wrappers'] = [dict((k, v) for k, v in w.items() if k in ('function', 'callee', 'entry', 'ok', 'states')) for w in wr]
     jobs = [(s, e, 'dfa') for (s, e) in jobs_for(chk.tier)]
     results = get_many(jobs)
     stats = {}
